@@ -10,6 +10,7 @@ import (
 	"github.com/xelaj/mtproto/internal/mtproto/messages"
 	"github.com/xelaj/mtproto/internal/transport"
 	"github.com/xelaj/mtproto/zverif/enum"
+	"github.com/xelaj/mtproto/zverif/freepass"
 	"github.com/xelaj/mtproto/zverif/ref/mtp1"
 	"github.com/xelaj/mtproto/zverif/sched"
 	"github.com/xelaj/mtproto/zverif/vr"
@@ -80,6 +81,7 @@ func (m *memConn) Close() error                { return nil }
 
 func main() {
 	run := vr.New("C03", "exploration")
+	freepass.MaybeReplay(run)
 	run.Rule("dimensions auth key(4) x salt(6) x session id(6) x msg_id(4) x seq_no(5) x ack(2) x cached key-id field(3: right, empty, stale) at <=2 deviations from the first value of each, crossed fully with every body length 0..N (so every padding amount 0..15); both directions; the same cases through transport.WriteMsg/ReadMsg on an injected connection for a sub-range; unencrypted messages for every length. non-trivial = distinct case where the repository function returned and the oracle compared fields")
 	run.Assume("reference R2 (harness/ref/mtp1) implements MTProto 1.0 (description_v1)", "transport level uses the real transport and intermediate mode over an in-memory connection (overlay-added constructor)")
 	N := 80
@@ -312,6 +314,7 @@ func main() {
 	run.Sample(map[string]any{"dir": "c2s", "key": "auth key #2 (first 8 bytes zero)", "salt": "0x0102030405060708", "len": 13, "ack": true})
 	run.Sample(map[string]any{"dir": "s2c", "len": 16, "pad": 0, "msg_id": "t<<32|1"})
 	run.Set("body_length_max", N)
+	freepass.Run(run, run.ID, freepass.Rounds(run))
 	run.Finish()
 }
 
